@@ -2,7 +2,8 @@
 EXTENDS Labels, Json
 \* part classes (atoms stand for whole classes of concrete strings; the harness draws random members)
 Guids    == {"G"}
-Cgis     == {NoSeq, <<"vend">>, <<"my", "_", "vendor">>, <<"a", ".", "b", "-", "c">>, <<"v32">>, <<"9d">>}
+\* (d4 / d2 / d1: vendors made of digits only -- they must not be mistaken for a version field)
+Cgis     == {NoSeq, <<"vend">>, <<"my", "_", "vendor">>, <<"a", ".", "b", "-", "c">>, <<"v32">>, <<"9d">>, <<"d4">>, <<"d2", "_", "d2">>, <<"d1">>}
 Versions == {None, "1", "12"}
 Reasons  == {None, "0", "3"}
 Bases    == {<<"c2pa", ".", "actions">>, <<"c2pa", ".", "ingredient", ".", "v3">>, <<"org", ".", "x", "-", "y", ".", "z_w">>,
